@@ -248,5 +248,50 @@ def rule_d4(repo):
     return res
 
 
+def rule_d5(repo):
+    """A new instance of an overloaded constant is admitted only if *every* type variable of the declared
+    type is instantiated to a type constructor; an instance that leaves one of several type variables open
+    overlaps other instances (power :: real => 'b => real overlaps real => nat => real)."""
+    res = RuleResult('C11.D5', 'an instance of an overloaded constant is accepted only after every component of the type instantiation was tested to be a type constructor', floor=1)
+    THEORY = 'kernel/theory.py'
+    f = repo.func(THEORY, 'Theory.add_term_sig')
+    cfg = cfg_of(f.node)
+    flow = flow_of(f.node)
+    ov = [n for n in cfg.test_nodes() if isinstance(n.ast, ast.Call) and call_attr(n.ast) == 'is_overload_const']
+    need(ov, 'Theory.add_term_sig: test is_overload_const not found')
+    start = [b for b, l in ov[0].succ if l == 'true']
+    match_vars = {t.id for n in ast.walk(f.node) if isinstance(n, ast.Assign) and isinstance(n.value, ast.Call) and
+                  call_attr(n.value) in ('match', 'match_incr') for t in n.targets if isinstance(t, ast.Name)}
+    need(match_vars, 'Theory.add_term_sig: the declared type is not matched against the given type')
+    good_loops = []
+    for it in cfg.nodes_of_kind('iter'):
+        if not (match_vars & flow.names_closure(it.ast.iter)):
+            continue
+        tvars = {x.id for x in ast.walk(it.ast.target) if isinstance(x, ast.Name)}
+        for t in cfg.test_nodes():
+            if isinstance(t.ast, ast.Call) and call_attr(t.ast) == 'is_tconst' and isinstance(t.ast.func.value, ast.Name) and \
+                    t.ast.func.value.id in tvars and t.stmt is not None and it.ast.lineno <= t.lineno <= (it.ast.end_lineno or 0):
+                # a component that is not a constructor must not let the loop go on or the function return
+                after_false = cfg.reach_from([b for b, l in t.succ if l == 'false'])
+                if cfg.exit.id not in after_false and it.id not in after_false:
+                    good_loops.append(it)
+    # `if not all(v.is_tconst() for ...)`: raise
+    all_tests = []
+    for t in cfg.test_nodes():
+        if isinstance(t.ast, ast.Call) and call_name(t.ast) == 'all' and t.ast.args and isinstance(t.ast.args[0], (ast.GeneratorExp, ast.ListComp)) and \
+                any(isinstance(c, ast.Call) and call_attr(c) == 'is_tconst' for c in ast.walk(t.ast.args[0].elt)) and \
+                (match_vars & flow.names_closure(t.ast.args[0].generators[0].iter)):
+            if cfg.exit.id not in cfg.reach_from([b for b, l in t.succ if l == 'false']):
+                all_tests.append(t)
+    # the accepting exit of the overloaded branch is reachable only through such a loop / such a test
+    ok = bool(good_loops or all_tests) and \
+        cfg.path_avoiding(cfg.exit, skip_nodes=good_loops + all_tests, start=start[0]) is None
+    res.add('%s :: Theory.add_term_sig :: every-type-variable-concrete' % THEORY, ok,
+            'each component of the instantiation is tested with is_tconst, a failing one raises' if ok else
+            'an overloaded instance is accepted without testing every component of its type instantiation: a partially '
+            'instantiated instance overlaps the fully concrete ones and both defining equations apply', f.loc)
+    return res
+
+
 def rules(repo):
-    return [rule_d1(repo), rule_d2(repo), rule_d3(repo), rule_d4(repo)]
+    return [rule_d1(repo), rule_d2(repo), rule_d3(repo), rule_d4(repo), rule_d5(repo)]
